@@ -406,6 +406,8 @@ DECOY_RULE = (" DECOYS: every pass above is run again (quick bounds in both tier
               "a second one ran it and stays alive, before the exploration starts; same oracle, so anything the library keeps outside a "
               "Lexicon is no longer in its initial state.")
 for _pid, _spec in CHECKS.items():
+    if _pid == "C08":        # the tree utility on its own: no Lexicon is involved, a decoy Lexicon has no business there
+        continue
     _extra = []
     for _p in _spec["passes"]:
         _q = dict(_p)
